@@ -225,8 +225,9 @@ def fold(prop, tier, seed, mod, results, watchdog, wall, hio_file):
             replay_paths.append(path)
             lines.append(f"VIOLATION property={prop} replay={path}")
             lines.append(f"  key={key} count={vcount.get(key, 1)} msg={v['msg'][:600]}")
-    elif inconclusive:
-        rc = 2
+    if inconclusive:
+        if rc == 0:
+            rc = 2
         for why in inconclusive:
             lines.append(f"INCONCLUSIVE property={prop} reason={why}")
 
